@@ -1025,3 +1025,12 @@ def _m79():
     from bfg9000.shell import syntax as shsyntax
     _patch_source(shsyntax.Writer, 'write', "escaped |= self.write(i, syntax, shell_quote)",
                   "escaped = self.write(i, syntax, shell_quote)")
+
+
+@mutant('make_flags_vars_global')
+def _m80():
+    # make/writer.py flags_vars: plain global `CFLAGS := $(GLOBAL_CFLAGS)` instead of the
+    # pattern-specific `%: CFLAGS := ...` that stops inheritance from dependants
+    from bfg9000.backends.make import writer
+    _patch_source(writer, 'flags_vars', "flags = buildfile.target_variable(name, gflags, True)",
+                  "flags = buildfile.variable(name, gflags, Section.other, True)")
